@@ -218,7 +218,7 @@ func (v *Verifier) VerifyFunc(fc *FuncContract) {
 				continue
 			}
 			hyps := append(append(append([]*Term(nil), o.St.PC...), env.scratch.Facts...), ex.GlobalFacts...)
-			ob := &Obligation{Name: name, Func: fc.Key, Label: c.Label, Kind: "ensures", Path: i, Hyps: hyps, Goal: goal, Bounded: o.St.Bounded, Trace: traceStrings(o.St)}
+			ob := &Obligation{Name: name, Func: fc.Key, Label: c.Label, Kind: "ensures", Path: i, Hyps: hyps, Goal: goal, Bounded: o.St.Bounded, Trace: traceStrings(o.St), PathSt: o.St, Fn: fn}
 			for _, kf := range v.knownFor(name) {
 				if kf.exceptExpr == nil {
 					continue
